@@ -47,6 +47,7 @@ const (
 	OpStore    // array, idx, val -> array
 	OpArrConst // literal byte array (bytes), default 0 elsewhere
 	OpApp      // uninterpreted function name(args) -> sort
+	OpArrSplit // args a,b; lo=n: index < n reads a, else b (never emitted; eliminated at Select)
 )
 
 type SortKind uint8
@@ -514,11 +515,21 @@ func (tt *TermTable) Bin(op Op, a, b *Term) *Term {
 		if isZero(b) {
 			return a
 		}
+		if a.op == OpConst && b.op != OpConst {
+			a, b = b, a
+		}
 		// (x + c1) + c2 -> x + (c1+c2)
 		if b.op == OpConst && a.op == OpAdd && a.args[1].op == OpConst {
 			return tt.Bin(OpAdd, a.args[0], tt.Bin(OpAdd, a.args[1], b))
 		}
-		if a.op == OpConst && b.op != OpConst {
+		// (x << k) + zext(y) with width(y) <= k  ==>  concat(x[w-k-1:0], zext_k(y))
+		for pass := 0; pass < 2; pass++ {
+			if a.op == OpShl && a.args[1].op == OpConst && b.op == OpZExt {
+				k := int(a.args[1].lo)
+				if k > 0 && k < a.w && b.args[0].w <= k {
+					return tt.Concat(tt.Extract(a.args[0], a.w-k-1, 0), tt.ZExt(b.args[0], k))
+				}
+			}
 			a, b = b, a
 		}
 	case OpSub:
@@ -572,6 +583,15 @@ func (tt *TermTable) Bin(op Op, a, b *Term) *Term {
 		}
 		if a == b {
 			return a
+		}
+		for pass := 0; pass < 2; pass++ {
+			if a.op == OpShl && a.args[1].op == OpConst && b.op == OpZExt {
+				k := int(a.args[1].lo)
+				if k > 0 && k < a.w && b.args[0].w <= k {
+					return tt.Concat(tt.Extract(a.args[0], a.w-k-1, 0), tt.ZExt(b.args[0], k))
+				}
+			}
+			a, b = b, a
 		}
 	case OpBXor:
 		if isZero(a) {
@@ -674,6 +694,7 @@ func (tt *TermTable) Extract(a *Term, hi, lo int) *Term {
 		if lo >= lw {
 			return tt.Extract(a.args[0], hi-lw, lo-lw)
 		}
+		return tt.Concat(tt.Extract(a.args[0], hi-lw, 0), tt.Extract(a.args[1], lw-1, lo))
 	}
 	return tt.mk(tkey{op: OpExtract, kind: SBV, w: w, p1: hi, p2: lo}, []*Term{a})
 }
@@ -728,12 +749,18 @@ func (tt *TermTable) Concat(hi, lo *Term) *Term {
 
 // ---------- arrays (BV64 -> BV8) ----------
 
+func (tt *TermTable) ArrSplit(n uint64, a, b *Term) *Term {
+	return tt.mk(tkey{op: OpArrSplit, kind: SArr, lo: n}, []*Term{a, b})
+}
+
 func (tt *TermTable) Select(arr, idx *Term) *Term {
 	if arr.kind != SArr || idx.kind != SBV || idx.w != 64 {
 		panic("Select sorts")
 	}
 	for {
 		switch arr.op {
+		case OpArrSplit:
+			return tt.Ite(tt.Bin(OpUlt, idx, tt.Const(64, arr.lo)), tt.Select(arr.args[0], idx), tt.Select(arr.args[1], idx))
 		case OpArrConst:
 			if idx.op == OpConst {
 				if idx.lo < uint64(len(arr.data)) {
@@ -952,6 +979,8 @@ func (tt *TermTable) Emit(t *Term, done map[int]bool, declaredUF map[string]bool
 		case OpConst, OpBool:
 		case OpVar:
 			fmt.Fprintf(out, "(declare-const %s %s)\n", smtName(x.name), x.sortString())
+		case OpArrSplit:
+			panic("OpArrSplit array reached the solver (write into a WithTail buffer is unsupported)")
 		case OpArrConst:
 			fmt.Fprintf(out, "(define-fun t%d () %s ", x.id, x.sortString())
 			n := 0
